@@ -95,6 +95,9 @@ pub fn file_set(name: &str) -> Vec<FileSpec> {
             f("dir\\m_plain.bin", 1124, "incompressible", 0, 0),
             f("x512.bin", 512, "period251", 0, 0),
             f("dir\\sub\\x1024.bin", 1024, "incompressible", 0, 0),
+            // ordinary names that merely look like the internal "(name)" files at one end
+            f("maps\\arena(2)", 150, "period251", 0, 0),
+            f("(draft) intro.txt", 140, "incompressible", 0, 0),
         ],
         "zlib" => vec![
             f("s_zlib.txt", 400, "sparse", 0x02, 0),
